@@ -1,5 +1,7 @@
 #!/usr/bin/env python3
-"""Translator of the Json area (property C15).
+"""Translator of the Json area (property C15).  Two halves: escape TABLES by execution (below) and
+statement TRANSLATION of stripComments / the string and number blocks of readToken / skipSpace
+(tools/gen_json_cxx.py -> lean/Nstd/Generated/JsonCode.lean, see `translate_code`).
 
 Regenerates `lean/Nstd/Generated/JsonTables.lean` from the CURRENT sources of the repo by
 EXECUTION: the harness (harness/json.cpp, built from the current src/Document/Json.cpp) answers
@@ -32,6 +34,7 @@ from pathlib import Path
 
 VERIF = Path(__file__).resolve().parents[1]
 OUT = VERIF / "lean" / "Nstd" / "Generated" / "JsonTables.lean"
+OUT_CODE = VERIF / "lean" / "Nstd" / "Generated" / "JsonCode.lean"
 PROBE_SOURCES = ["src/Document/Json.cpp", "src/String.cpp", "src/Variant.cpp", "src/Error.cpp", "src/Memory.cpp"]
 
 
@@ -162,6 +165,30 @@ def run(repo=None, harness=None):
     OUT.parent.mkdir(parents=True, exist_ok=True)
     if not OUT.exists() or OUT.read_text() != text:
         OUT.write_text(text)
+    ok2, msg2 = translate_code(repo)
+    if not ok2:
+        return False, msg2
+    return True, hashlib.sha1(text.encode()).hexdigest()[:12] + "/" + msg2
+
+
+ASSUMED = []
+
+
+def translate_code(repo):
+    """second half of the translator: statements of the current Json.cpp -> Nstd/Generated/JsonCode.lean
+    (tools/gen_json_cxx.py).  A refusal leaves the previous file in place (the driver still builds, the
+    check reports the broken tie and goes on searching for a failing input)."""
+    sys.path.insert(0, str(VERIF / "tools"))
+    import gen_json_cxx
+    try:
+        text, assumed = gen_json_cxx.translate((Path(repo) / "src/Document/Json.cpp").read_text(errors="replace"))
+    except gen_json_cxx.Refuse as ex:
+        return False, f"gen_json: Json.cpp left the translated C++ subset: {ex}"
+    except (OSError, RecursionError, IndexError, KeyError, TypeError, ValueError) as ex:
+        return False, f"gen_json: translation of Json.cpp failed: {type(ex).__name__}: {ex}"
+    ASSUMED[:] = assumed
+    if not OUT_CODE.exists() or OUT_CODE.read_text() != text:
+        OUT_CODE.write_text(text)
     return True, hashlib.sha1(text.encode()).hexdigest()[:12]
 
 
@@ -170,8 +197,12 @@ def gen_with(harness):
     def gen(ctx):
         ok, msg = run(harness=harness)
         if ok:
-            ctx.notes.append("translator: Nstd/Generated/JsonTables.lean regenerated by executing the current "
-                             f"Json.cpp (sha1 {msg})")
+            ctx.notes.append("translator: Nstd/Generated/JsonTables.lean regenerated by executing the current Json.cpp, "
+                             "Nstd/Generated/JsonCode.lean by translating stripComments, the string and number blocks of "
+                             f"readToken and skipSpace (sha1 {msg})")
+            for a in ASSUMED:
+                if a not in ctx.assumptions:
+                    ctx.assumptions.append("translator: " + a)
         return ok, msg
     return gen
 
